@@ -43,7 +43,7 @@ structure FState where
 inductive CaseSt where
   | fresh
   | framing (f : FState)
-  | rpc (kind : Kind) (r : Rpc) (defs : Bool)      -- defs: definition lines are still accepted
+  | rpc (kind : Kind) (r : Rpc) (defs : Bool) (tx : Bool)     -- defs: definition lines are still accepted; tx: send callback installed
   | world (w : World) (defs : Bool)
 
 def expectTok (ts : List String) (want : String) : Except String (List String) :=
@@ -158,6 +158,103 @@ def int32? (w : String) : Option Int := do
   let v ← intOfString? w
   if -2147483648 ≤ v ∧ v < 2147483648 then some v else none
 
+/-! ### JSON value descriptions (same grammar as the harness)
+  n t f | d D | i<int literal> | s<hex of printable ASCII> | [v,v,…] | {<hexkey>:v,…} -/
+
+def lowerHex (c : Char) : Bool := c.isDigit || ('a' ≤ c && c ≤ 'f')
+
+def printableStr? (hexs : List Char) : Option String := do
+  let bs ← bytesOfHexChars hexs
+  if bs.all (fun b => 0x20 ≤ b && b ≤ 0x7e) then some (String.ofList (bs.map (fun b => Char.ofNat b.toNat))) else none
+
+mutual
+partial def descValue (cs : List Char) (depth : Nat) : Option (J × List Char) :=
+  if depth > 16 then none else
+  match cs with
+  | 'n' :: r => some (.null, r)
+  | 't' :: r => some (.bool true, r)
+  | 'f' :: r => some (.bool false, r)
+  | 'd' :: r => some (.float, r)
+  | 'D' :: r => some (.float, r)
+  | 'i' :: r =>
+      let (neg, r1) := match r with | '-' :: q => (true, q) | q => (false, q)
+      let ds := r1.takeWhile Char.isDigit
+      let rest := r1.dropWhile Char.isDigit
+      (jsonInt? (String.ofList ((if neg then ['-'] else []) ++ ds))).map (fun v => (.int v, rest))
+  | 's' :: r => do
+      let h := r.takeWhile lowerHex
+      let t ← printableStr? h
+      some (.str t, r.dropWhile lowerHex)
+  | '[' :: ']' :: r => some (.arr [], r)
+  | '[' :: r => descItems r depth []
+  | '{' :: '}' :: r => some (.obj [], r)
+  | '{' :: r => descFields r depth []
+  | _ => none
+partial def descItems (cs : List Char) (depth : Nat) (acc : List J) : Option (J × List Char) := do
+  let (v, r) ← descValue cs (depth + 1)
+  match r with
+  | ',' :: r' => descItems r' depth (acc ++ [v])
+  | ']' :: r' => some (.arr (acc ++ [v]), r')
+  | _ => none
+partial def descFields (cs : List Char) (depth : Nat) (acc : List (String × J)) : Option (J × List Char) := do
+  let h := cs.takeWhile lowerHex
+  let k ← printableStr? h
+  if acc.any (fun f => f.1 == k) then none else
+  match cs.dropWhile lowerHex with
+  | ':' :: r => do
+      let (v, r2) ← descValue r (depth + 1)
+      match r2 with
+      | ',' :: r' => descFields r' depth (acc ++ [(k, v)])
+      | '}' :: r' => some (.obj (acc ++ [(k, v)]), r')
+      | _ => none
+  | _ => none
+end
+
+def desc? (w : String) : Option J :=
+  if w.length > 4000 then none else
+  match descValue w.toList 0 with
+  | some (j, []) => some j
+  | _ => none
+
+def hexOfStr (t : String) : String := if t.isEmpty then "" else hexOfBytes t.toUTF8.toList
+
+def insertField (f : String × J) : List (String × J) → List (String × J)
+  | [] => [f]
+  | g :: gs => if f.1 < g.1 then f :: g :: gs else g :: insertField f gs
+
+/-- canonical rendering, as the harness renders the parsed nlohmann value: keys sorted, integers
+beyond 64 bit are floats -/
+partial def canonJ : J → String
+  | .null => "n"
+  | .bool b => if b then "t" else "f"
+  | .int v => if inI64U64 v then s!"i{v}" else "d"
+  | .float => "d"
+  | .str t => "s" ++ hexOfStr t
+  | .arr items => "[" ++ ",".intercalate (items.map canonJ) ++ "]"
+  | .obj fields => "{" ++ ",".intercalate ((fields.foldl (fun acc f => insertField f acc) []).map (fun f => hexOfStr f.1 ++ ":" ++ canonJ f.2)) ++ "}"
+
+def showRMsg : RMsg → String
+  | .request id m p => s!"q:{id}:{if m.isEmpty then "-" else hexOfStr m}:{canonJ p}"
+  | .response id c r => s!"s:{id}:{c}:{canonJ r}"
+
+def showGVal : GVal → String
+  | .b v => if v then "t" else "f"
+  | .u v => toString v
+  | .i v => toString v
+  | .d _ => "d"
+  | .s v => "s" ++ hexOfStr v
+
+def gkind? : String → Option (GKind × GVal × String)
+  | "b" => some (.b, .b true, "t")
+  | "u" => some (.u, .u 7, "7")
+  | "i" => some (.i, .i (-7), "-7")
+  | "d" => some (.d, .d none, "old")
+  | "s" => some (.s, .s "old", "s6f6c64")
+  | _ => none
+
+def key? (w : String) : Option String :=
+  if w == "-" then some "" else if w.isEmpty || !w.toList.all lowerHex then none else printableStr? w.toList
+
 /-- one framing op against the implementation's line (as words). `none` = ill-typed op. -/
 def framingOp (f : FState) (ws : List String) (impl : List String) :
     Option (Except String (FState × List String)) :=
@@ -205,6 +302,36 @@ def framingOp (f : FState) (ws : List String) (impl : List String) :
         let text := List.replicate n cLsq ++ deepObj ++ List.replicate n cRsq
         let f' := { f with oracle := { f.oracle with valid := text :: f.oracle.valid } }
         some ((feedOp f' s [frameFor k text] impl).map (fun (g, t) => (g, "deep" :: t)))
+  | ["lensweep", s, lo, hi] => do
+      let s ← slot? s; let lo ← lo.toNat?; let hi ← hi.toNat?; opened s
+      if lo > hi || hi > 20000000 || hi - lo > 100000 then none else
+      let want := s!"P lensweep n={3 * (hi - lo + 1)} bad=-"
+      -- `C14_header_roundtrip` / `C14_raw_roundtrip` / `C14_packet_roundtrip` are uniform in the length
+      some (if " ".intercalate impl == want then .ok (f, ["lensweep"]) else .error s!"expected '{want}' got '{" ".intercalate impl}'")
+  | ["pj", s, d] => do
+      let s ← slot? s; opened s
+      let j ← desc? d
+      match j with
+      | .arr _ | .obj _ =>
+        let want := "P pj ok" ++ String.join ((recvJson j).map (fun r => " " ++ showRMsg r))
+        let msgs := recvJson j
+        let tags := ["pj"] ++ (if msgs.isEmpty then ["pj-ignored"] else []) ++ (if msgs.length ≥ 2 then ["pj-batch"] else []) ++
+          (if msgs.any (fun r => match r with | .request .. => true | _ => false) then ["pj-request"] else []) ++
+          (if msgs.any (fun r => match r with | .response .. => true | _ => false) then ["pj-response"] else [])
+        some (if " ".intercalate impl == want then .ok (f, tags) else .error s!"expected '{want}' got '{" ".intercalate impl}'")
+      | _ => none
+  | ["gf", k, d, key] => do
+      let (gk, old, _) ← gkind? k; let j ← desc? d; let key ← key? key
+      let (r, v) := getField gk j key old
+      let shown := if r then showGVal v else (match gk with | .d => "old" | _ => showGVal v)
+      let want := s!"P gf {if r then 1 else 0} {shown}"
+      some (if " ".intercalate impl == want then .ok (f, [if r then "gf-hit" else "gf-miss"]) else .error s!"expected '{want}' got '{" ".intercalate impl}'")
+  | ["hf", k, d, key] => do
+      let c ← (if k.length == 1 then k.toList.head? else none)
+      if !("oabnfius".toList.contains c) then none else
+      let j ← desc? d; let key ← key? key
+      let want := s!"P hf {if hasField c j key then 1 else 0}"
+      some (if " ".intercalate impl == want then .ok (f, ["hf"]) else .error s!"expected '{want}' got '{" ".intercalate impl}'")
   | _ => none
 where
   sendOp (f : FState) (s : Nat) (impl : List String) : Except String (FState × List String) :=
@@ -228,9 +355,9 @@ where
 
 /-! ### Rpc / world cases: callback scripts -/
 
-def digits? (w : String) (maxv : Nat) : Option Nat :=
+def digits? (w : String) (maxv : Nat) (maxLen : Nat := 9) : Option Nat :=
   let cs := w.toList
-  if cs.isEmpty || cs.length > 9 || !cs.all Char.isDigit then none
+  if cs.isEmpty || cs.length > maxLen || !cs.all Char.isDigit then none
   else
     let v : Nat := cs.foldl (fun a c => a * 10 + (c.toNat - 48)) 0
     if v ≤ maxv then some v else none
@@ -340,30 +467,56 @@ def opTags (pre : String) (r : Rpc) (op : Option Op) (r' : Rpc) (evs : List REv)
 def checkOverflow (evs : List REv) : Except String Unit :=
   if evs.contains .overflow then .error "model: nesting budget exhausted" else .ok ()
 
-def msMax : Nat := 100000
+def msMax : Nat := 5000000000
 
-def rpcOp (k : Kind) (r : Rpc) (defs : Bool) (ws : List String) (impl : String) :
+def onWire : REv → Bool
+  | .sent .. => true
+  | .answered .. => true
+  | _ => false
+
+def rpcOp (k : Kind) (r : Rpc) (defs : Bool) (tx : Bool) (ws : List String) (impl : String) :
     Option (Except String (CaseSt × List String)) :=
-  let finish (r' : Rpc) (evs : List REv) (tags : List String) : Except String (CaseSt × List String) := do
+  let finish (r' : Rpc) (evs : List REv) (tags : List String) (tx' : Bool := tx) : Except String (CaseSt × List String) := do
     checkOverflow evs
-    let want := "P ev " ++ showEvs evs
-    if impl.trimAscii.toString = want then .ok (.rpc k r' false, tags) else .error s!"expected '{want}' got '{impl.trimAscii.toString}'"
+    -- transport down (no send callback): the protos drop what the Rpc asks them to send; everything else happens
+    let seen := if tx then evs else evs.filter (fun e => !onWire e)
+    let want := "P ev " ++ showEvs seen
+    let tags := tags ++ (if !tx && evs.any onWire then ["tx-off-dropped"] else []) ++
+      (if !tx && evs.any isTimeout then ["tx-off-timeout"] else [])
+    if impl.trimAscii.toString = want then .ok (.rpc k r' false tx', tags) else .error s!"expected '{want}' got '{impl.trimAscii.toString}'"
   match (if defs then defLine? r.prog ws else none) with
   | some p =>
-      some (if impl.trimAscii.toString = "P def" then .ok (.rpc k { r with prog := p } true, ["def"])
+      some (if impl.trimAscii.toString = "P def" then .ok (.rpc k { r with prog := p } true tx, ["def"])
             else .error s!"expected 'P def' got '{impl.trimAscii.toString}'")
   | none =>
     match ws with
     | ["adv", ms] => do
-        let ms ← digits? ms msMax
+        let ms ← digits? ms msMax 10
         let (r', evs) := r.advanceAll ms
         let tags := opTags "" r none r' evs ++
-          (if evs.any isTimeout then [] else (if r.timerOn then ["adv-no-timeout"] else ["adv-timer-off"]))
+          (if evs.any isTimeout then [] else (if r.timerOn then ["adv-no-timeout"] else ["adv-timer-off"])) ++
+          (if ms ≥ 2147483648 then ["adv-beyond-2^31"] else [])
         some (finish r' evs tags)
+    | ["jump", v] => do
+        let v ← digits? v kIntMax 10
+        let tags := ["jump"] ++ (if v < r.idAlloc then ["jump-back"] else []) ++ (if v + 2 ≥ kIntMax then ["jump-intmax"] else [])
+        some (finish (r.jump v) [] tags)
+    | ["tx", "on"] => some (finish r [] ["tx-on"] true)
+    | ["tx", "off"] => some (finish r [] ["tx-off"] false)
+    | ["reqsync", c, m, code] => do
+        let c ← digits? c 99; let m ← digits? m 7; let code ← int32? code
+        -- the transport answers the request from inside the send callback: the response arrives below request()
+        let (r1, e1) := step r (.request c m)
+        let answered := tx && e1.any isSent
+        let (r2, e2) := if answered then r1.respond ((r.idAlloc + 1 : Nat) : Int) code else (r1, [])
+        some (finish r2 (e1 ++ e2) (opTags "" r (some (.request c m)) r2 (e1 ++ e2) ++ (if answered then ["reqsync"] else [])))
     | _ => do
         let op ← peerOp? ws
         let (r', evs) := step r op
-        some (finish r' evs (opTags "" r (some op) r' evs))
+        let idmax := match op with | .request .. => !r.dead && r.idAlloc ≥ kIntMax | _ => false
+        let wide := evs.any (fun e => match e with | .sent id _ => id + 2 ≥ kIntMax | _ => false)
+        some (finish r' evs (opTags "" r (some op) r' evs ++ (if idmax then ["req-at-intmax-refused"] else []) ++
+          (if wide then ["id-near-intmax"] else [])))
 
 def queue? : String → Option Bool
   | "ab" => some true
@@ -402,7 +555,7 @@ def worldOp (w : World) (defs : Bool) (ws : List String) (impl : String) : Optio
     | ["drop", q, i] => do let q ← queue? q; let i ← digits? i 999999999; doStep (.drop q i) ["w-drop"]
     | ["dup", q, i] => do let q ← queue? q; let i ← digits? i 999999999; doStep (.dup q i) ["w-dup"]
     | ["adv", ms] => do
-        let ms ← digits? ms msMax
+        let ms ← digits? ms msMax 10
         let (w', aevs, bevs) := w.advance ms
         some (finish w' aevs bevs (["w-adv"] ++ opTags "w-" w.a none w'.a aevs ++ opTags "w-" w.b none w'.b bevs))
     | _ => none
@@ -429,8 +582,8 @@ def processCase (ops impl : List String) : List String :=
           match st, ws with
           | .fresh, ["rpc", k, n] =>
               let mk (kd : Kind) (n : Nat) : Option (Except String (CaseSt × List String)) :=
-                if 1 ≤ n ∧ n ≤ 8 then
-                  some (if iw == ["P", "rpc"] then Except.ok (CaseSt.rpc kd (Rpc.init n) true, ["rpc-open"])
+                if 1 ≤ n ∧ n ≤ 512 then
+                  some (if iw == ["P", "rpc"] then Except.ok (CaseSt.rpc kd (Rpc.init n) true true, ["rpc-open"] ++ (if n > 8 then ["rpc-many-slots"] else []))
                         else Except.error s!"expected 'P rpc' got {il}")
                 else none
               (match k, n.toNat? with
@@ -446,9 +599,19 @@ def processCase (ops impl : List String) : List String :=
                          else Except.error s!"expected 'P world' got {il}")
                  else none
                | _, _ => none)
+          | .fresh, ["rpcsweep", k, lo, hi] =>
+              (match lo.toNat?, hi.toNat? with
+               | some lo, some hi =>
+                 if (k == "H" || k == "R" || k == "P") && lo ≤ hi && hi ≤ 2000000 && hi - lo ≤ 100000 then
+                   -- every request (any size) answered by the echo service completes exactly once with the echoed value
+                   let want := s!"P rpcsweep n={hi + 40 - lo + 1} bad=-"
+                   some (if il.trimAscii.toString == want then Except.ok (CaseSt.framing {}, ["rpcsweep"])
+                         else Except.error s!"expected '{want}' got '{il}'")
+                 else none
+               | _, _ => none)
           | .fresh, _ => (framingOp {} ws iw).map (·.map fun (f, t) => (.framing f, t))
           | .framing f, _ => (framingOp f ws iw).map (·.map fun (f, t) => (.framing f, t))
-          | .rpc k r d, _ => rpcOp k r d ws il
+          | .rpc k r d tx, _ => rpcOp k r d tx ws il
           | .world w d, _ => worldOp w d ws il
         match res with
         | none =>
